@@ -95,6 +95,16 @@ Theorem C17_set_floats_within_limits_is_well_formed : forall p data dims q,
 Proof. exact set_floats_wf. Qed.
 Print Assumptions C17_set_floats_within_limits_is_well_formed.
 
+Theorem C17_set_strings_within_limits_is_well_formed : forall p data dims q,
+  set_strs p data dims = Ok q -> p_ints p = [] -> p_floats p = [] ->
+  name_ok (p_name p) -> desc_ok (p_desc p) ->
+  Forall (fun s => no_nul s /\ rtrim s = s) data ->
+  (let d := maxlen data :: dims_or_len dims (nlen data) in
+   (length d <= 255)%nat /\ Forall byte_ok d /\ prodN d < 2147483648 /\ loop_cost d 1 <= LIMC /\ prodN (dims_or_len dims (nlen data)) < 2147483648) ->
+  wf_param q.
+Proof. exact set_strs_wf. Qed.
+Print Assumptions C17_set_strings_within_limits_is_well_formed.
+
 (* ... and these ARE at the limits: name of 127 characters, description of 255, 255 entries holding both 16-bit extremes *)
 Example C17_limits_are_well_formed :
   wf_param (mkParam (repeat 78 127) (repeat 100 255) true TInt [255] (repeat 32767%Z 127 ++ repeat (-32768)%Z 128) [] []) /\
